@@ -1,8 +1,8 @@
 \* C16: exhaustive check / behaviour generation of Dispose.tla.  @@SUITE@@ and @@EMIT@@ are substituted
 \* by the driver (harness/drivers/c16): Suite = mc | mcbig (exhaustive) | gen | genbig (generation,
 \* Emit = TRUE: hist' is printed at every transition = one behaviour per (state, action) pair).
-\* The configurations of each suite (closers, completion paths, design as-is / repaired) are listed in
-\* Dispose.tla (Cfgs).  hist is excluded from the fingerprint (VIEW).
+\* The configurations of each suite (scene latch / tunnel / bridge / resmgr, closers, completion paths, design
+\* as-is / repaired / hypothetical) are listed in Dispose.tla (Cfgs).  hist is excluded from the fingerprint (VIEW).
 CONSTANTS
   Suite = "@@SUITE@@"
   Emit = @@EMIT@@
